@@ -85,7 +85,10 @@ def store_pop(eng, ver, k):
 @spec
 def same_store(eng, a, b):
     va, vb = eng.store_of(a), eng.store_of(b)
-    return SV(z3.And(va.dom == vb.dom, va.val == vb.val), "bool")
+    cond = z3.And(va.dom == vb.dom, va.val == vb.val)
+    if va is not vb:
+        FO.assert_same(eng, va, vb, cond)
+    return SV(cond, "bool")
 
 
 @spec
@@ -358,3 +361,30 @@ def opsvalid(eng, vs):
         if isinstance(v, PObj):
             parts.append(_b(eng, wf(eng, v)))
     return SV(z3.And(*parts) if parts else z3.BoolVal(True), "bool")
+
+
+@spec
+def isint(eng, x):
+    if isinstance(x, int):
+        return True
+    return SV(z3.IsInt(zreal(x)), "bool")
+
+
+@spec
+def warned_unsat(eng):
+    """the library warned that the constraint cannot be satisfied (ghost list `warned`)"""
+    return any("cannot be satisfied" in str(w) for w in eng.warned)
+
+
+@spec
+def encloses(eng, bounds, d):
+    """bounds is None / (lo|None, hi|None); every given side encloses the denotation d"""
+    if bounds is None:
+        return True
+    lo, hi = bounds
+    parts = []
+    if lo is not None:
+        parts.append(zreal(lo) <= zreal(d))
+    if hi is not None:
+        parts.append(zreal(d) <= zreal(hi))
+    return SV(z3.And(*parts), "bool") if parts else True
